@@ -32,14 +32,16 @@ SeqOfIndex(i, A) ==            \* the i-th (0-based) sequence over alphabet A, o
       Find(len, rem) == IF rem < n ^ len THEN [len |-> len, rem |-> rem] ELSE Find(len + 1, rem - n ^ len)
       f == Find(0, i)
   IN [j \in 1..f.len |-> A[((f.rem \div (n ^ (j - 1))) % n) + 1]]
-CountSeqs(n, L) == SumOver(LAMBDA l : n ^ l, 0, L)
+CountSeqs(n, L) == ((n ^ (L + 1)) - 1) \div (n - 1)       \* 1 + n + ... + n^L, closed form (TLC caches it)
 
 Alpha == <<97, 65, 44, 32, 233, 12288, 128512>>         \* a A , blank e-acute ideographic-space emoji
 StrMax == IF Thorough THEN 4 ELSE 3
-Pats == {SeqOfIndex(i, Alpha) : i \in 0..(CountSeqs(Len(Alpha), 2) - 1)}
+Pats == IF Thorough THEN {SeqOfIndex(i, Alpha) : i \in 0..(CountSeqs(Len(Alpha), 2) - 1)}
+        ELSE {SeqOfIndex(i, Alpha) : i \in 0..Len(Alpha)}
+             \cup {<<97, 97>>, <<44, 44>>, <<97, 44>>, <<233, 128512>>, <<32, 12288>>, <<65, 97>>}
 AllBytes == [i \in 1..256 |-> i - 1]
 EdgeBytes == <<0, 65, 127, 128, 143, 144, 159, 160, 191, 192, 194, 224, 237, 240, 244, 255>>
-EdgeMax == IF Thorough THEN 5 ELSE 4
+EdgeMax == IF Thorough THEN 5 ELSE 3
 
 NI  == 65536
 NS  == CountSeqs(Len(Alpha), StrMax)
@@ -275,8 +277,7 @@ P3(name, L1, L2, L3) == [i \in 1..(Len(L1) * Len(L2) * Len(L3)) |->
                        [name |-> name, args |-> <<L1[((i - 1) \div (Len(L2) * Len(L3))) + 1],
                                                   L2[(((i - 1) \div Len(L3)) % Len(L2)) + 1], L3[((i - 1) % Len(L3)) + 1]>>]]
 P0(name) == <<[name |-> name, args |-> <<>>]>>
-RECURSIVE ConcatAll(_)
-ConcatAll(ss) == IF ss = <<>> THEN <<>> ELSE Head(ss) \o ConcatAll(Tail(ss))
+ConcatAll(ss) == FlattenSeq(ss)
 Each(names, prefix, L) == ConcatAll([i \in 1..Len(names) |-> P1(prefix \o names[i], L)])
 
 Cases ==
@@ -311,7 +312,7 @@ Cases ==
 NCases == Len(Cases)
 
 \* every export has at least one case; constants are `called' with no arguments
-CasesCoverTable == {Cases[i].name : i \in 1..NCases} = ExportNames
+CasesCoverTable == LET cases == Cases IN {cases[i].name : i \in 1..Len(cases)} = ExportNames
 
 CaseLaws(c) ==
   LET e == Export(c.name)
@@ -334,19 +335,28 @@ StdinCases == [i \in 1..Len(StdinB) |-> [id |-> i, stdin |-> StdinB[i], n |-> 5,
 (***************************************************************************)
 (* State machine and invariants.                                            *)
 (***************************************************************************)
-N == IF Mode = "laws" THEN NLaws ELSE NCases
+\* cases mode: a row is a GROUP of cases (i with i % Groups = row % Groups): `Cases' mentions recursive
+\* operators, TLC re-evaluates such a definition at every use, so it is bound once per state
+Groups == 48
+N == IF Mode = "laws" THEN NLaws ELSE Groups
 
 InvLaws == (Mode = "laws" /\ row > 0) =>
               CASE KindOf(row) = "int" -> IntLaws(CurInt(row))
                 [] KindOf(row) = "str" -> StrLaws(CurStr(row))
                 [] OTHER -> ByteLaws(CurBytes(row))
 InvStart == (Mode = "laws" /\ row = 0) => StartLaws
-InvCases == (Mode = "cases" /\ row > 0) => CaseLaws(Cases[row])
-InvTable == (Mode = "cases" /\ row = 0) => TableWellFormed /\ CasesCoverTable
+InvCases == (Mode = "cases" /\ row > 0) =>
+              LET cases == Cases IN
+              \A i \in {j \in 1..Len(cases) : j % Groups = row % Groups} : CaseLaws(cases[i])
+InvTable == (Mode = "cases" /\ row = 0) => TableWellFormed /\ CasesCoverTable /\ NCases > Groups
 
-\* quick tier: every 8th int plus the ints with an extreme byte; thorough: all 65 536
-Sampled(i) == \/ Mode # "laws" \/ Thorough \/ i > NI
-              \/ (i - 1) % 8 = 0 \/ ((i - 1) \div 256) \in {0, 1, 127, 128, 255} \/ ((i - 1) % 256) \in {0, 255}
+\* quick tier: every 16th int plus the ints with an extreme byte, every 4th two-byte sequence;
+\* thorough: all 65 536 ints and all byte sequences
+Sampled(i) == \/ Mode # "laws" \/ Thorough
+              \/ /\ i <= NI
+                 /\ \/ (i - 1) % 16 = 0 \/ ((i - 1) \div 256) \in {0, 127, 128, 255} \/ ((i - 1) % 256) \in {0, 255}
+              \/ KindOf(i) = "str" \/ KindOf(i) = "bytes2"
+              \/ KindOf(i) = "bytes1" /\ (i - NI - NS <= 257 \/ i % 4 = 0)
 
 Init == row = 0
 Next == \/ row = 0 /\ row' \in {-c : c \in 1..Chunks}
@@ -360,12 +370,13 @@ Out == IOEnv.VERIF_OUT
 WirePred(p) == IF p.k = "exact" THEN [k |-> "exact", v |-> WireOfVal(p.v)] ELSE p
 
 Emit ==
+  LET cases == Cases IN          \* bound once (TLC re-evaluates recursive constant definitions per use)
   /\ TLCGet("stats").distinct > 0
   /\ IF Mode = "laws" THEN PrintT(<<"LAWS", NI, NS, NB1, NB2>>)
      ELSE
      /\ ndJsonSerialize(Out \o "/stdlib_cases.ndjson",
-          [i \in 1..NCases |->
-             LET c == Cases[i] IN
+          [i \in 1..Len(cases) |->
+             LET c == cases[i] IN
              [id |-> i, name |-> c.name, args |-> [j \in 1..Len(c.args) |-> WireOfVal(c.args[j])],
               pred |-> WirePred(Pred(c.name, c.args)), r |-> WireOfType(Export(c.name).r)]])
      /\ ndJsonSerialize(Out \o "/stdlib_table.ndjson",
@@ -375,5 +386,5 @@ Emit ==
               r |-> WireOfType(e.r), t |-> WireOfType(IF e.kind = "fn" THEN Fn(e.ps, e.r) ELSE e.r)]])
      /\ ndJsonSerialize(Out \o "/stdlib_stdin.ndjson", StdinCases)
      /\ ndJsonSerialize(Out \o "/stdlib_docreadings.ndjson", DocReadings)
-     /\ PrintT(<<"CASES", NCases, Len(Exports)>>)
+     /\ PrintT(<<"CASES", Len(cases), Len(Exports)>>)
 =============================================================================
